@@ -27,6 +27,9 @@ type c11Root struct {
 	// Only, when set, lists the family types this root receives (roots may share base types while
 	// each has derived types of its own); empty = all types of the family.
 	Only []string `json:"only_types,omitempty"`
+	// Override: types this root binds to an object OF ITS OWN built from another text, while the
+	// other types (which may name the overridden one) are the family's shared objects
+	Override []lib.TypeDef `json:"own_types,omitempty"`
 }
 
 // c11Family: roots that share one set of type objects and one set of enum-rule objects.
@@ -182,6 +185,16 @@ func c11BuildRoot(f *c11Family, fo *c11FamObjs, i int) *njs.Schema {
 				if !keep {
 					continue
 				}
+			}
+			own := false
+			for _, ov := range f.Roots[i].Override {
+				if ov.Name == t.Name {
+					own = true
+					_ = s.AddType(t.Name, njs.New(t.Name, ov.Text))
+				}
+			}
+			if own {
+				continue
 			}
 			if ts := fo.types[t.Name]; ts != nil {
 				_ = s.AddType(t.Name, ts) // a failing AddType leaves the type out: same on fresh objects
